@@ -57,3 +57,21 @@ static_codebook *vorbis_staticbook_unpack(oggpack_buffer *opb)
   ;
 
 #endif
+
+#ifdef VERIF_MAKE_WORDS
+/* bounded unit: Huffman codeword assignment for n <= 3 lengths */
+ogg_uint32_t *_make_words(char *l, long n, long sparsecount)
+  __CPROVER_requires(n >= 1 && n <= 3 && FRESH(l, n))
+  __CPROVER_requires(l[0] >= 0 && l[0] <= 3 && (n < 2 || (l[1] >= 0 && l[1] <= 3)) && (n < 3 || (l[2] >= 0 && l[2] <= 3)))
+  /* sparsecount is 0 (encode side) or the number of used entries (decode side) */
+  __CPROVER_requires(sparsecount == 0 || sparsecount == (l[0] > 0) + (n > 1 && l[1] > 0) + (n > 2 && l[2] > 0))
+  __CPROVER_assigns()
+  __CPROVER_ensures(RV == NULL || FRESH(RV, sizeof(ogg_uint32_t) * (sparsecount ? sparsecount : n)))
+  /* a single used entry of length 1 is the sanctioned single-entry book */
+  __CPROVER_ensures((n == 1 && l[0] == 1) ==> RV != NULL)
+  /* two codewords of length 1 fill the tree exactly; three overpopulate it */
+  __CPROVER_ensures((n == 2 && l[0] == 1 && l[1] == 1) ==> RV != NULL)
+  __CPROVER_ensures((n == 3 && l[0] == 1 && l[1] == 1 && l[2] == 1) ==> RV == NULL)
+  /* an underpopulated tree (lengths 1,2) is rejected */
+  __CPROVER_ensures((n == 2 && l[0] == 1 && l[1] == 2) ==> RV == NULL);
+#endif
